@@ -159,7 +159,14 @@ let run_assoc neg typed moveonly nopayload sh ak idA idB ops =
         (match n with
          | None -> if o = "xinsh" then endpos ^ ",empty" else if multi then endpos else endpos ^ ",0,empty"
          | Some e ->
-           if o = "xinsh" then (let (p, b, _) = insert_hint d (ai w 4) e in p ^ "," ^ (if b then "empty" else e2s e))
+           if o = "xinsh" && (sh = OSet || sh = OMSet) then begin   (* set::insert(hint, node&&) regenerated from set.h *)
+             let h' = ni (min (ai w 4) (len d.l)) in
+             let ((i, l'), nd) = GenNode.gen_set_insert_hint_node multi d.l (Some e) h' in
+             d.l <- l'; pos_i i ^ "," ^ node_str nd end
+           else if o = "xinsh" && (sh = USet || sh = UMap) then begin   (* unordered_set/map::insert(hint, node&&) regenerated *)
+             let ((r, l'), nd) = GenNode.gen_uset_insert_hint_node d.l (Some (if nopayload then (fst e, zi 0) else e)) in
+             d.l <- l'; (match r with Some e' -> pos_e e' | None -> "end") ^ "," ^ node_str nd end
+           else if o = "xinsh" then (let (p, b, _) = insert_hint d (ai w 4) e in p ^ "," ^ (if b then "empty" else e2s e))
            else let (p, b) = insert d e in
              if multi then p else p ^ "," ^ bstr b ^ "," ^ (if b then "empty" else e2s e)) end
     | "merge" -> if not (has_nodes sh) then "" else begin
